@@ -1,10 +1,13 @@
-(* C08 - lemmas about the stack machine of AliasedFactory.from_alias.
+(* C08 - lemmas about the loop of AliasedFactory.from_alias (Model.run).
 
-   Part A: any class graph (multiple inheritance, even cycles): the machine
-           terminates within [fuel_bound], what it returns is a reachable class
-           carrying the alias, and it raises only if no reachable class does.
-   Part B: class trees: the machine computes exactly
-           [find (has alias) (visit_order tree)]. *)
+   Part A: any class graph (multiple inheritance, even cycles): the loop
+           terminates within [fuel_bound]; what it returns is a reachable class
+           carrying the alias whose registration index is the greatest among
+           the reachable carriers; it raises exactly when no reachable class
+           carries the alias; with injective registration indices this
+           determines the answer ([run_spec]).
+   Part B: class trees as an instance: reachability = membership in
+           [visit_order], distinct identities = injectivity. *)
 From Coq Require Import String.
 From Coq Require Import ZArith List Bool Lia.
 From Verif Require Import C08.Model.
@@ -65,128 +68,207 @@ Proof. induction l; simpl; [reflexivity|]. rewrite list_sum_app. simpl. lia. Qed
 (* ------------------------------------------------------------------ *)
 (** * Part A: arbitrary class graphs *)
 
+Lemma mem_id_cons x c P : mem_id x (c :: P) = Z.eqb x c || mem_id x P.
+Proof. reflexivity. Qed.
+
 Section Generic.
   Variable N : Type.
   Variable nid : N -> Z.
+  Variable nreg : N -> Z.
   Variable nsubs : N -> list N.
   Variable nal : N -> list string.
 
-  Notation run := (run N nid nsubs nal).
+  Notation run := (run N nid nreg nsubs nal).
   Notation has_alias := (has_alias N nal).
+  Notation beats := (beats N nreg).
   Notation Reach := (Reach N nsubs).
   Notation weight := (weight N nsubs).
 
-  (* more fuel never changes a definite answer *)
-  Lemma run_mono : forall f st P a,
-      run f st P a <> NoFuel -> forall f', f <= f' -> run f' st P a = run f st P a.
+  Lemma Reach_trans : forall x y z, Reach x y -> Reach y z -> Reach x z.
   Proof.
-    induction f as [|f IH]; intros st P a H f' Hle; [simpl in H; congruence|].
+    intros x y z Hxy Hyz. induction Hyz as [|c d Hc IH Hd]; [assumption|].
+    eapply Reach_step; eauto.
+  Qed.
+
+  (* more fuel never changes a definite answer *)
+  Lemma run_mono : forall f st P m a,
+      run f st P m a <> NoFuel -> forall f', f <= f' -> run f' st P m a = run f st P m a.
+  Proof.
+    induction f as [|f IH]; intros st P m a H f' Hle; [simpl in H; congruence|].
     destruct f' as [|f']; [lia|]. simpl in *.
     destruct st as [|p rest]; [reflexivity|].
-    destruct (negb (mem_id (nid p) P)).
-    - apply IH; [assumption|lia].
-    - destruct (has_alias a p); [reflexivity|]. apply IH; [assumption|lia].
+    destruct (mem_id (nid p) P); apply IH; solve [assumption|lia].
   Qed.
 
   (** ** Soundness: what is returned is a reachable class that has the alias *)
-  Lemma run_sound_gen : forall root f st P a n,
+  Lemma run_sound_gen : forall root f st P m a n,
       (forall s, In s st -> Reach root s) ->
-      run f st P a = Found n -> Reach root n /\ has_alias a n = true.
+      (forall x, m = Some x -> Reach root x /\ has_alias a x = true) ->
+      run f st P m a = Found n -> Reach root n /\ has_alias a n = true.
   Proof.
-    intros root. induction f as [|f IH]; intros st P a n Hst H; [discriminate|].
-    simpl in H. destruct st as [|p rest]; [discriminate|].
-    destruct (negb (mem_id (nid p) P)).
-    - eapply IH; [|exact H]. intros s Hs. apply in_app_or in Hs as [Hs|Hs].
-      + apply in_rev in Hs. eapply Reach_step; [apply Hst; now left|exact Hs].
-      + apply Hst. exact Hs.
-    - destruct (has_alias a p) eqn:E.
-      + inversion H; subst. split; [apply Hst; now left|assumption].
-      + eapply IH; [|exact H]. intros; apply Hst; now right.
+    intros root. induction f as [|f IH]; intros st P m a n Hst Hm H; [discriminate|].
+    simpl in H. destruct st as [|p rest].
+    - destruct m as [x|]; [|discriminate]. inversion H; subst. now apply Hm.
+    - destruct (mem_id (nid p) P).
+      + eapply IH; [| |exact H]; [intros; apply Hst; now right|exact Hm].
+      + eapply IH; [| |exact H].
+        * intros s Hs. apply in_app_or in Hs as [Hs|Hs].
+          -- apply in_rev in Hs. eapply Reach_step; [apply Hst; now left|exact Hs].
+          -- apply Hst. now right.
+        * intros x Hx. destruct (has_alias a p && beats p m) eqn:E; [|now apply Hm].
+          inversion Hx; subst. apply andb_true_iff in E as [E _].
+          split; [apply Hst; now left|exact E].
   Qed.
 
   Lemma run_sound : forall root f a n,
-      run f [root] [] a = Found n -> Reach root n /\ has_alias a n = true.
+      run f [root] [] None a = Found n -> Reach root n /\ has_alias a n = true.
   Proof.
-    intros root f a n H. eapply run_sound_gen; [|exact H].
-    intros s [Hs|[]]. subst. constructor.
+    intros root f a n H. eapply run_sound_gen; [| |exact H].
+    - intros s [Hs|[]]. subst. constructor.
+    - intros x Hx. discriminate.
   Qed.
 
-  (** ** Completeness: ValueError only if no reachable class has the alias *)
-  Section Complete.
+  (** ** The invariant of the loop *)
+  Section Spec.
     Variable root : N.
     Variable a : string.
     (* class identity: distinct reachable class objects have distinct identities *)
     Hypothesis nid_inj : forall x y, Reach root x -> Reach root y -> nid x = nid y -> x = y.
 
-    Definition covered (checked st : list N) (n : N) : Prop := In n checked \/ In n st.
-
-    Record Inv (st : list N) (P : list Z) (checked : list N) : Prop := {
-      inv_root : covered checked st root;
+    (* [P] = seen.  Every reachable class whose identity is in [P] has been
+       compared with [m]; its subclasses are seen or still on the stack. *)
+    Record Inv (st : list N) (P : list Z) (m : option N) : Prop := {
+      inv_root : mem_id (nid root) P = true \/ In root st;
       inv_exp : forall c, Reach root c -> mem_id (nid c) P = true ->
-                          forall d, In d (nsubs c) -> covered checked st d;
-      inv_chk : forall c, In c checked ->
-                          mem_id (nid c) P = true /\ has_alias a c = false /\ Reach root c;
-      inv_st : forall s, In s st -> Reach root s
+                          forall d, In d (nsubs c) -> mem_id (nid d) P = true \/ In d st;
+      inv_st : forall s, In s st -> Reach root s;
+      inv_none : m = None ->
+                 forall c, Reach root c -> mem_id (nid c) P = true -> has_alias a c = false;
+      inv_some : forall x, m = Some x ->
+                 Reach root x /\ has_alias a x = true /\
+                 forall c, Reach root c -> mem_id (nid c) P = true -> has_alias a c = true ->
+                           (nreg c <= nreg x)%Z
     }.
 
-    Lemma run_complete_gen : forall f st P checked,
-        Inv st P checked -> run f st P a = NotFound ->
-        forall n, Reach root n -> has_alias a n = false.
+    (* the answer: greatest registration index among the reachable carriers *)
+    Definition answer (o : outcome N) : Prop :=
+      match o with
+      | Found x => Reach root x /\ has_alias a x = true /\
+                   forall c, Reach root c -> has_alias a c = true -> (nreg c <= nreg x)%Z
+      | NotFound => forall c, Reach root c -> has_alias a c = false
+      | NoFuel => True
+      end.
+
+    Lemma inv_all_seen st P m :
+      Inv st P m -> st = [] -> forall n, Reach root n -> mem_id (nid n) P = true.
     Proof.
-      induction f as [|f IH]; intros st P checked I H; [discriminate|].
-      simpl in H. destruct st as [|p rest].
-      - (* the stack is empty: everything reachable has been checked *)
-        clear H IH. assert (Hall : forall n, Reach root n -> In n checked).
-        { intros n Hn. induction Hn as [|c d Hc IHc Hd].
-          - destruct (inv_root _ _ _ I) as [H|[]]. exact H.
-          - destruct (inv_chk _ _ _ I c IHc) as [Hp _].
-            destruct (inv_exp _ _ _ I c Hc Hp d Hd) as [H|[]]. exact H. }
-        intros n Hn. apply (inv_chk _ _ _ I n (Hall n Hn)).
-      - destruct (negb (mem_id (nid p) P)) eqn:Ep.
-        + (* first visit: push parent and children *)
-          refine (IH _ _ checked _ H). constructor.
-          * destruct (inv_root _ _ _ I) as [Hc|Hs]; [now left|right].
-            apply in_or_app. right. exact Hs.
-          * intros c Hc Hm d Hd. simpl in Hm. apply orb_true_iff in Hm as [Hm|Hm].
-            -- apply Z.eqb_eq in Hm.
-               assert (c = p).
-               { apply nid_inj; auto. apply (inv_st _ _ _ I). now left. }
-               subst c. right. apply in_or_app. left. apply -> in_rev. exact Hd.
-            -- destruct (inv_exp _ _ _ I c Hc Hm d Hd) as [H1|H1]; [now left|right].
-               apply in_or_app. right. exact H1.
-          * intros c Hc. destruct (inv_chk _ _ _ I c Hc) as [H1 [H2 H3]].
-            repeat split; auto. simpl. rewrite H1. apply orb_true_r.
-          * intros s Hs. apply in_app_or in Hs as [Hs|Hs].
-            -- apply in_rev in Hs. eapply Reach_step; [|exact Hs].
-               apply (inv_st _ _ _ I). now left.
-            -- apply (inv_st _ _ _ I). exact Hs.
-        + destruct (has_alias a p) eqn:Ea; [discriminate|].
-          (* second visit, alias absent: p is checked *)
-          apply negb_false_iff in Ep.
-          assert (Hcov : forall n, covered checked (p :: rest) n -> covered (p :: checked) rest n).
-          { intros n [Hn|[Hn|Hn]]; [left; now right|left; now left|now right]. }
-          refine (IH _ _ (p :: checked) _ H). constructor.
-          * apply Hcov. apply (inv_root _ _ _ I).
-          * intros c Hc Hm d Hd. apply Hcov. eapply (inv_exp _ _ _ I); eauto.
-          * intros c [Hc|Hc].
-            -- subst c. repeat split; auto. apply (inv_st _ _ _ I). now left.
-            -- apply (inv_chk _ _ _ I c Hc).
-          * intros s Hs. apply (inv_st _ _ _ I). now right.
+      intros I E n Hn. subst st. induction Hn as [|c d Hc IHc Hd].
+      - destruct (inv_root _ _ _ I) as [H|[]]. exact H.
+      - destruct (inv_exp _ _ _ I c Hc IHc d Hd) as [H|[]]. exact H.
     Qed.
 
-    Lemma inv_init : Inv [root] [] [].
+    Lemma inv_skip p rest P m :
+      Inv (p :: rest) P m -> mem_id (nid p) P = true -> Inv rest P m.
+    Proof.
+      intros I Ep. constructor.
+      - destruct (inv_root _ _ _ I) as [H|[H|H]]; [now left|subst; now left|now right].
+      - intros c Hc Hm d Hd.
+        destruct (inv_exp _ _ _ I c Hc Hm d Hd) as [H|[H|H]]; [now left|subst; now left|now right].
+      - intros s Hs. apply (inv_st _ _ _ I). now right.
+      - apply (inv_none _ _ _ I).
+      - apply (inv_some _ _ _ I).
+    Qed.
+
+    Lemma inv_visit p rest P m :
+      Inv (p :: rest) P m -> mem_id (nid p) P = false ->
+      Inv (rev (nsubs p) ++ rest) (nid p :: P)
+          (if has_alias a p && beats p m then Some p else m).
+    Proof.
+      intros I Ep.
+      assert (Hp : Reach root p) by (apply (inv_st _ _ _ I); now left).
+      (* a reachable class whose identity is in the new `seen` is p or was seen before *)
+      assert (Hsplit : forall c, Reach root c -> mem_id (nid c) (nid p :: P) = true ->
+                                 c = p \/ mem_id (nid c) P = true).
+      { intros c Hc Hm. rewrite mem_id_cons in Hm. apply orb_true_iff in Hm as [Hm|Hm].
+        - left. apply Z.eqb_eq in Hm. now apply nid_inj.
+        - now right. }
+      assert (Hup : forall x, mem_id x P = true -> mem_id x (nid p :: P) = true).
+      { intros x Hx. rewrite mem_id_cons, Hx. apply orb_true_r. }
+      assert (Hself : mem_id (nid p) (nid p :: P) = true).
+      { rewrite mem_id_cons, Z.eqb_refl. reflexivity. }
+      constructor.
+      - destruct (inv_root _ _ _ I) as [H|[H|H]].
+        + left. now apply Hup.
+        + subst. now left.
+        + right. apply in_or_app. now right.
+      - intros c Hc Hm d Hd. destruct (Hsplit c Hc Hm) as [E|Hm'].
+        + subst c. right. apply in_or_app. left. apply -> in_rev. exact Hd.
+        + destruct (inv_exp _ _ _ I c Hc Hm' d Hd) as [H|[H|H]].
+          * left. now apply Hup.
+          * subst. now left.
+          * right. apply in_or_app. now right.
+      - intros s Hs. apply in_app_or in Hs as [Hs|Hs].
+        + apply in_rev in Hs. eapply Reach_step; [exact Hp|exact Hs].
+        + apply (inv_st _ _ _ I). now right.
+      - intros Hnone c Hc Hm.
+        destruct (has_alias a p && beats p m) eqn:E; [discriminate|].
+        subst m. simpl in E. rewrite andb_true_r in E.
+        destruct (Hsplit c Hc Hm) as [Ec|Hm']; [now subst|].
+        now apply (inv_none _ _ _ I).
+      - intros x Hx. destruct (has_alias a p && beats p m) eqn:E.
+        + inversion Hx; subst x. apply andb_true_iff in E as [Ea Eb].
+          split; [exact Hp|]. split; [exact Ea|].
+          intros c Hc Hm Hac. destruct (Hsplit c Hc Hm) as [Ec|Hm']; [subst; lia|].
+          destruct m as [y|].
+          * simpl in Eb. apply Z.ltb_lt in Eb.
+            destruct (inv_some _ _ _ I y eq_refl) as [_ [_ Hmax]].
+            specialize (Hmax c Hc Hm' Hac). lia.
+          * pose proof (inv_none _ _ _ I eq_refl c Hc Hm') as Hf. congruence.
+        + subst m. destruct (inv_some _ _ _ I x eq_refl) as [Hx1 [Hx2 Hmax]].
+          split; [exact Hx1|]. split; [exact Hx2|].
+          intros c Hc Hm Hac. destruct (Hsplit c Hc Hm) as [Ec|Hm']; [|now apply Hmax].
+          subst c. rewrite Hac in E. simpl in E. apply Z.ltb_ge in E. exact E.
+    Qed.
+
+    Lemma run_answer_gen : forall f st P m, Inv st P m -> answer (run f st P m a).
+    Proof.
+      induction f as [|f IH]; intros st P m I; [exact Logic.I|].
+      simpl. destruct st as [|p rest].
+      - pose proof (inv_all_seen _ _ _ I eq_refl) as Hall.
+        destruct m as [x|]; simpl.
+        + destruct (inv_some _ _ _ I x eq_refl) as [H1 [H2 H3]].
+          split; [exact H1|]. split; [exact H2|]. intros c Hc Hac. apply H3; auto.
+        + intros c Hc. apply (inv_none _ _ _ I eq_refl c Hc). now apply Hall.
+      - destruct (mem_id (nid p) P) eqn:Ep.
+        + apply IH. now apply inv_skip with p.
+        + apply IH. now apply inv_visit.
+    Qed.
+
+    Lemma inv_init : Inv [root] [] None.
     Proof.
       constructor.
       - right. now left.
       - intros c _ Hm. discriminate.
-      - intros c [].
       - intros s [Hs|[]]. subst. constructor.
+      - intros _ c _ Hm. discriminate.
+      - intros x Hx. discriminate.
     Qed.
 
+    Lemma run_answer : forall f, answer (run f [root] [] None a).
+    Proof. intros f. apply run_answer_gen. apply inv_init. Qed.
+
+    (** the class that is instantiated was registered last among the reachable
+        classes carrying the alias - in ANY hierarchy *)
+    Lemma run_last_registered : forall f n,
+        run f [root] [] None a = Found n ->
+        forall c, Reach root c -> has_alias a c = true -> (nreg c <= nreg n)%Z.
+    Proof. intros f n H. pose proof (run_answer f) as A. rewrite H in A. apply A. Qed.
+
+    (** ValueError only if no reachable class has the alias *)
     Lemma run_complete : forall f,
-        run f [root] [] a = NotFound -> forall n, Reach root n -> has_alias a n = false.
-    Proof. intros f H. eapply run_complete_gen; [apply inv_init|exact H]. Qed.
-  End Complete.
+        run f [root] [] None a = NotFound -> forall n, Reach root n -> has_alias a n = false.
+    Proof. intros f H. pose proof (run_answer f) as A. rewrite H in A. exact A. Qed.
+  End Spec.
 
   (** ** Termination on a finite universe of classes closed under __subclasses__ *)
   Section Terminate.
@@ -198,9 +280,6 @@ Section Generic.
 
     Lemma unpushed_cons P n l :
       unpushed P (n :: l) = (if mem_id (nid n) P then 0 else weight n) + unpushed P l.
-    Proof. reflexivity. Qed.
-
-    Lemma mem_id_cons x c P : mem_id x (c :: P) = Z.eqb x c || mem_id x P.
     Proof. reflexivity. Qed.
 
     Lemma unpushed_mono : forall l P c, unpushed (c :: P) l <= unpushed P l.
@@ -223,39 +302,124 @@ Section Generic.
         destruct (Z.eqb (nid n) (nid s)); cbn [orb]; destruct (mem_id (nid n) P); lia.
     Qed.
 
-    Lemma run_terminates_gen : forall f st P a,
+    Lemma run_terminates_gen : forall f st P m a,
         (forall s, In s st -> In s U) ->
-        length st + unpushed P U < f -> run f st P a <> NoFuel.
+        length st + unpushed P U < f -> run f st P m a <> NoFuel.
     Proof.
-      induction f as [|f IH]; intros st P a Hst Hf; [lia|].
-      simpl. destruct st as [|p rest]; [discriminate|].
-      destruct (negb (mem_id (nid p) P)) eqn:Ep.
-      - apply negb_true_iff in Ep. apply IH.
-        + intros s Hs. apply in_app_or in Hs as [Hs|Hs].
-          * apply in_rev in Hs. eapply U_closed; [|exact Hs]. apply Hst. now left.
-          * apply Hst. exact Hs.
-        + pose proof (unpushed_push U P p (Hst p (or_introl eq_refl)) Ep) as Hp.
-          rewrite app_length, rev_length. simpl in *. unfold weight, Model.weight in *. lia.
-      - destruct (has_alias a p); [discriminate|]. apply IH.
+      induction f as [|f IH]; intros st P m a Hst Hf; [lia|].
+      simpl. destruct st as [|p rest]; [destruct m; discriminate|].
+      destruct (mem_id (nid p) P) eqn:Ep.
+      - apply IH.
         + intros; apply Hst; now right.
         + simpl in Hf. lia.
+      - apply IH.
+        + intros s Hs. apply in_app_or in Hs as [Hs|Hs].
+          * apply in_rev in Hs. eapply U_closed; [|exact Hs]. apply Hst. now left.
+          * apply Hst. now right.
+        + pose proof (unpushed_push U P p (Hst p (or_introl eq_refl)) Ep) as Hp.
+          rewrite app_length, rev_length. simpl in *. unfold weight, Model.weight in *. lia.
     Qed.
 
     Lemma unpushed_nil_le : unpushed [] U = list_sum (map weight U).
     Proof. unfold unpushed. simpl. reflexivity. Qed.
 
     Lemma run_terminates : forall root a f,
-        In root U -> fuel_bound N nsubs U <= f -> run f [root] [] a <> NoFuel.
+        In root U -> fuel_bound N nsubs U <= f -> run f [root] [] None a <> NoFuel.
     Proof.
       intros root a f Hr Hf. apply run_terminates_gen.
       - intros s [Hs|[]]. now subst.
       - rewrite unpushed_nil_le. unfold fuel_bound in Hf. simpl. lia.
     Qed.
+
+    (** ** The exact answer on a finite class graph *)
+    Section Exact.
+      Variable root : N.
+      Variable a : string.
+      Hypothesis root_in : In root U.
+      Hypothesis nid_inj : forall x y, Reach root x -> Reach root y -> nid x = nid y -> x = y.
+      (* __init_subclass__ hands out distinct registration indices *)
+      Hypothesis nreg_inj : forall x y, Reach root x -> Reach root y -> nreg x = nreg y -> x = y.
+
+      (* [c] is a reachable carrier and every other reachable carrier was registered earlier *)
+      Definition last_carrier (c : N) : Prop :=
+        Reach root c /\ has_alias a c = true /\
+        forall m, Reach root m -> has_alias a m = true -> m <> c -> (nreg m < nreg c)%Z.
+
+      Lemma run_spec : forall f, fuel_bound N nsubs U <= f ->
+          forall c, run f [root] [] None a = Found c <-> last_carrier c.
+      Proof.
+        intros f Hf c. pose proof (run_answer root a nid_inj f) as A.
+        pose proof (run_terminates root a f root_in Hf) as T. split.
+        - intros H. rewrite H in A. destruct A as [A1 [A2 A3]].
+          split; [exact A1|]. split; [exact A2|]. intros m Hm Ham Hne.
+          specialize (A3 m Hm Ham).
+          destruct (Z.eq_dec (nreg m) (nreg c)) as [E|E]; [|lia].
+          exfalso. apply Hne. now apply nreg_inj.
+        - intros [C1 [C2 C3]].
+          destruct (run f [root] [] None a) as [c'| |] eqn:E.
+          + destruct A as [A1 [A2 A3]].
+            destruct (Z.eq_dec (nreg c') (nreg c)) as [En|En].
+            * f_equal. now apply nreg_inj.
+            * exfalso. assert (Hne : c' <> c) by (intro; subst; now apply En).
+              specialize (C3 c' A1 A2 Hne). specialize (A3 c C1 C2). lia.
+          + simpl in A. specialize (A c C1). congruence.
+          + congruence.
+      Qed.
+
+      Lemma run_not_found_iff : forall f, fuel_bound N nsubs U <= f ->
+          (run f [root] [] None a = NotFound <->
+           forall n, Reach root n -> has_alias a n = false).
+      Proof.
+        intros f Hf. split.
+        - apply run_complete. exact nid_inj.
+        - intros Hno. pose proof (run_terminates root a f root_in Hf) as T.
+          destruct (run f [root] [] None a) as [c'| |] eqn:E; [|reflexivity|congruence].
+          apply run_sound in E as [E1 E2]. rewrite (Hno c' E1) in E2. discriminate.
+      Qed.
+    End Exact.
   End Terminate.
+
+  (** ** Consequences *)
+
+  (* of two reachable classes that carry the alias, the one registered earlier never answers *)
+  Lemma earlier_carrier_never_answers : forall root a,
+      (forall x y, Reach root x -> Reach root y -> nid x = nid y -> x = y) ->
+      forall f x y, Reach root y -> has_alias a y = true -> (nreg x < nreg y)%Z ->
+                    run f [root] [] None a <> Found x.
+  Proof.
+    intros root a Hinj f x y Hy Hay Hlt H.
+    pose proof (run_last_registered root a Hinj f x H y Hy Hay). lia.
+  Qed.
+
+  (* a class is registered after its bases: a proper subclass carrying the alias
+     always wins over its base *)
+  Lemma reach_registered_later : forall root,
+      (forall c d, Reach root c -> In d (nsubs c) -> (nreg c < nreg d)%Z) ->
+      forall b, Reach root b -> forall m, Reach b m -> (nreg b <= nreg m)%Z.
+  Proof.
+    intros root Hafter b Hb m Hm. induction Hm as [|c d Hc IH Hd]; [lia|].
+    assert (Reach root c) by (eapply Reach_trans; eauto).
+    specialize (Hafter c d H Hd). lia.
+  Qed.
+
+  Lemma subclass_shadows_base_gen : forall root a,
+      (forall x y, Reach root x -> Reach root y -> nid x = nid y -> x = y) ->
+      (forall c d, Reach root c -> In d (nsubs c) -> (nreg c < nreg d)%Z) ->
+      forall f n, run f [root] [] None a = Found n ->
+      forall base d m, Reach root base -> In d (nsubs base) -> Reach d m ->
+                       has_alias a m = true -> n <> base.
+  Proof.
+    intros root a Hinj Hafter f n H base d m Hb Hd Hm Ham E. subst n.
+    assert (Hrd : Reach root d) by (eapply Reach_step; eauto).
+    assert (Hrm : Reach root m) by (eapply Reach_trans; eauto).
+    pose proof (run_last_registered root a Hinj f base H m Hrm Ham) as Hle.
+    pose proof (Hafter base d Hb Hd) as Hlt.
+    pose proof (reach_registered_later root Hafter d Hrd m Hm). lia.
+  Qed.
 End Generic.
 
 (* ------------------------------------------------------------------ *)
-(** * Part B: class trees - the exact specification *)
+(** * Part B: class trees as an instance *)
 
 Section TreeInd.
   Variable P : ctree -> Prop.
@@ -273,146 +437,89 @@ End TreeInd.
 
 Notation trun := tree_run.
 Notation thas := (has_alias ctree t_al).
+Notation TReach := (Reach ctree t_subs).
 
 Definition forest_order (ts : list ctree) : list ctree := concat (map visit_order ts).
-Definition forest_size (ts : list ctree) : nat := list_sum (map tsize ts).
 
 Lemma visit_order_node c al ch :
   visit_order (Node c al ch) = forest_order (rev ch) ++ [Node c al ch].
 Proof. simpl. unfold forest_order. now rewrite map_rev. Qed.
 
-Lemma tsize_node c al ch : tsize (Node c al ch) = S (forest_size (rev ch)).
-Proof. simpl. unfold forest_size. now rewrite map_rev, list_sum_rev. Qed.
-
 Lemma forest_order_cons t ts : forest_order (t :: ts) = visit_order t ++ forest_order ts.
 Proof. reflexivity. Qed.
 
-(* the statement proved by induction: what running the machine with [t] on top
-   of the stack does *)
-Definition tree_stmt (a : string) (t : ctree) : Prop :=
-  forall rest P,
-    NoDup (ids t) -> (forall x, In x (ids t) -> mem_id x P = false) ->
-    match find (thas a) (visit_order t) with
-    | Some n => forall f, 2 * tsize t <= f -> trun f (t :: rest) P a = Found n
-    | None => exists P', (forall x, mem_id x P' = mem_id x P || mem_id x (ids t)) /\
-                         forall f, trun (2 * tsize t + f) (t :: rest) P a = trun f rest P' a
-    end.
+Lemma forest_order_app l1 l2 : forest_order (l1 ++ l2) = forest_order l1 ++ forest_order l2.
+Proof. unfold forest_order. now rewrite map_app, concat_app. Qed.
 
-Definition forest_ids (ts : list ctree) : list Z := map t_id (forest_order ts).
-
-Lemma forest_stmt a : forall ts, Forall (tree_stmt a) ts ->
-  forall rest P,
-    NoDup (forest_ids ts) -> (forall x, In x (forest_ids ts) -> mem_id x P = false) ->
-    match find (thas a) (forest_order ts) with
-    | Some n => forall f, 2 * forest_size ts <= f -> trun f (ts ++ rest) P a = Found n
-    | None => exists P', (forall x, mem_id x P' = mem_id x P || mem_id x (forest_ids ts)) /\
-                         forall f, trun (2 * forest_size ts + f) (ts ++ rest) P a = trun f rest P' a
-    end.
+Lemma in_forest_order n ts : In n (forest_order ts) <-> exists k, In k ts /\ In n (visit_order k).
 Proof.
-  induction 1 as [|t ts Ht Hts IH]; intros rest P Hnd Hdis.
-  - simpl. exists P. split; [intros; now rewrite orb_false_r|reflexivity].
-  - unfold forest_ids in Hnd, Hdis. rewrite forest_order_cons, map_app in Hnd, Hdis.
-    fold (ids t) in Hnd, Hdis. fold (forest_ids ts) in Hnd, Hdis.
-    destruct (NoDup_app_inv _ _ Hnd) as [Hnd1 [Hnd2 Hnd3]].
-    assert (Hdis1 : forall x, In x (ids t) -> mem_id x P = false)
-      by (intros; apply Hdis; apply in_or_app; now left).
-    specialize (Ht (ts ++ rest) P Hnd1 Hdis1).
-    rewrite forest_order_cons, find_app.
-    replace (forest_size (t :: ts)) with (tsize t + forest_size ts) by reflexivity.
-    destruct (find (thas a) (visit_order t)) as [n|].
-    + intros f Hf. simpl. apply Ht. lia.
-    + destruct Ht as [P1 [HP1 Hrun1]].
-      assert (Hdis2 : forall x, In x (forest_ids ts) -> mem_id x P1 = false).
-      { intros x Hx. rewrite HP1. apply orb_false_iff. split.
-        - apply Hdis. apply in_or_app. now right.
-        - destruct (mem_id x (ids t)) eqn:Hc; [|reflexivity]. exfalso.
-          apply mem_id_true in Hc. exact (Hnd3 x Hc Hx). }
-      specialize (IH rest P1 Hnd2 Hdis2).
-      destruct (find (thas a) (forest_order ts)) as [n|].
-      * intros f Hf. replace f with (2 * tsize t + (f - 2 * tsize t)) by lia.
-        simpl app. rewrite Hrun1. apply IH. lia.
-      * destruct IH as [P2 [HP2 Hrun2]]. exists P2. split.
-        -- intros x. rewrite HP2, HP1. unfold forest_ids at 2.
-           rewrite forest_order_cons, map_app. fold (ids t). fold (forest_ids ts).
-           unfold mem_id at 5. rewrite existsb_app. fold (mem_id x (ids t)).
-           fold (mem_id x (forest_ids ts)). now rewrite orb_assoc.
-        -- intros f. replace (2 * (tsize t + forest_size ts) + f)
-             with (2 * tsize t + (2 * forest_size ts + f)) by lia.
-           simpl app. rewrite Hrun1. apply Hrun2.
+  unfold forest_order. rewrite in_concat. split.
+  - intros [l [Hl Hn]]. apply in_map_iff in Hl as [k [Hk Hin]]. subst. eauto.
+  - intros [k [Hk Hn]]. exists (visit_order k). split; [now apply in_map|assumption].
 Qed.
 
-Lemma ids_node c al ch : ids (Node c al ch) = forest_ids (rev ch) ++ [c].
-Proof. unfold ids. rewrite visit_order_node, map_app. reflexivity. Qed.
-
-Lemma mem_id_app x l1 l2 : mem_id x (l1 ++ l2) = mem_id x l1 || mem_id x l2.
-Proof. unfold mem_id. apply existsb_app. Qed.
-
-Lemma tree_stmt_all a : forall t, tree_stmt a t.
+Lemma forest_order_in_rev m l : In m (forest_order (rev l)) <-> In m (forest_order l).
 Proof.
-  induction t as [c al ch IHch] using ctree_ind'.
-  intros rest P Hnd Hdis. set (t := Node c al ch) in *.
-  assert (Hids : ids t = forest_ids (rev ch) ++ [c]) by apply ids_node.
-  rewrite Hids in Hnd, Hdis.
-  destruct (NoDup_app_inv _ _ Hnd) as [Hnd1 [_ Hnd3]].
-  assert (HcP : mem_id c P = false) by (apply Hdis; apply in_or_app; right; now left).
-  assert (Hdis' : forall x, In x (forest_ids (rev ch)) -> mem_id x (c :: P) = false).
-  { intros x Hx. simpl. apply orb_false_iff. split.
-    - apply Z.eqb_neq. intro E. subst x. apply (Hnd3 c Hx). now left.
-    - apply Hdis. apply in_or_app. now left. }
-  pose proof (forest_stmt a (rev ch) (Forall_rev IHch) (t :: rest) (c :: P) Hnd1 Hdis')
-    as HF.
-  assert (Hstep : forall f, trun (S f) (t :: rest) P a = trun f (rev ch ++ t :: rest) (c :: P) a).
-  { intros f. unfold trun, tree_run. simpl. unfold t at 1. simpl t_id.
-    change (mem_id c P) with (mem_id c P). rewrite HcP. reflexivity. }
-  assert (Hsz : tsize t = S (forest_size (rev ch))) by apply tsize_node.
-  unfold t at 1. rewrite visit_order_node. fold t. rewrite find_app.
-  destruct (find (thas a) (forest_order (rev ch))) as [n|].
-  - intros f Hf. destruct f as [|f]; [lia|]. rewrite Hstep. apply HF. lia.
-  - destruct HF as [P1 [HP1 Hrun1]].
-    assert (HcP1 : mem_id c P1 = true).
-    { rewrite HP1. simpl. now rewrite Z.eqb_refl. }
-    assert (Hchk : forall f, trun (S f) (t :: rest) P1 a =
-                             if thas a t then Found t else trun f rest P1 a).
-    { intros f. unfold trun, tree_run. simpl. unfold t at 1. simpl t_id.
-      rewrite HcP1. reflexivity. }
-    change (find (thas a) [t]) with (if thas a t then Some t else None).
-    destruct (thas a t) eqn:Ea.
-    + intros f Hf.
-      replace f with (S (2 * forest_size (rev ch) + S (f - 2 * tsize t))) by lia.
-      rewrite Hstep, Hrun1, Hchk. try rewrite Ea. reflexivity.
-    + exists P1. split.
-      * intros x. rewrite HP1, Hids, mem_id_app. simpl.
-        destruct (Z.eqb x c); destruct (mem_id x P); destruct (mem_id x (forest_ids (rev ch)));
-          reflexivity.
-      * intros f.
-        replace (2 * tsize t + f) with (S (2 * forest_size (rev ch) + S f)) by lia.
-        rewrite Hstep, Hrun1, Hchk. try rewrite Ea. reflexivity.
+  rewrite !in_forest_order. split; intros [k [Hk Hm]]; exists k; split; auto;
+    [apply in_rev in Hk|apply -> in_rev in Hk]; assumption.
 Qed.
 
-(** The machine on a tree computes the specification, for every class tree whose
-    classes are distinct objects, with any fuel from [tree_fuel] upward. *)
-Theorem tree_run_spec : forall t a f,
-    NoDup (ids t) -> tree_fuel t <= f ->
-    trun f [t] [] a = match spec_from_alias t a with
-                      | Some n => Found n
-                      | None => NotFound
-                      end.
+Lemma visit_order_self t : In t (visit_order t).
+Proof. destruct t as [c al ch]. rewrite visit_order_node. apply in_or_app. right. now left. Qed.
+
+Lemma in_visit_order_node n c al ch :
+  In n (visit_order (Node c al ch)) <-> n = Node c al ch \/ In n (forest_order ch).
 Proof.
-  intros t a f Hnd Hf. unfold tree_fuel in Hf.
-  pose proof (tree_stmt_all a t [] [] Hnd (fun _ _ => eq_refl)) as H.
-  unfold spec_from_alias. destruct (find (thas a) (visit_order t)) as [n|].
-  - apply H. lia.
-  - destruct H as [P' [_ Hrun]].
-    replace f with (2 * tsize t + S (f - 2 * tsize t - 1)) by lia.
-    rewrite Hrun. reflexivity.
+  rewrite visit_order_node, in_app_iff, forest_order_in_rev. simpl. intuition.
 Qed.
 
-Lemma tree_from_alias_spec_l : forall t a,
-    NoDup (ids t) ->
-    tree_from_alias t a = option_map t_id (spec_from_alias t a).
+(* the classes of a tree are closed under __subclasses__ *)
+Lemma visit_order_closed : forall t c, In c (visit_order t) ->
+    forall d, In d (t_subs c) -> In d (visit_order t).
 Proof.
-  intros t a Hnd. unfold tree_from_alias.
-  change (tree_run (tree_fuel t) [t] [] a) with (trun (tree_fuel t) [t] [] a).
-  rewrite (tree_run_spec t a (tree_fuel t) Hnd (le_n _)).
-  destruct (spec_from_alias t a); reflexivity.
+  induction t as [c0 al ch IH] using ctree_ind'. intros c Hc d Hd.
+  apply in_visit_order_node in Hc as [Hc|Hc]; apply in_visit_order_node; right.
+  - subst c. simpl in Hd. apply in_forest_order. exists d. split; [assumption|apply visit_order_self].
+  - apply in_forest_order in Hc as [k [Hk Hc]]. apply in_forest_order. exists k. split; [assumption|].
+    rewrite Forall_forall in IH. eapply IH; eauto.
+Qed.
+
+(* reachability from the root = membership *)
+Lemma treach_in : forall t n, TReach t n -> In n (visit_order t).
+Proof.
+  intros t n H. induction H as [|c d Hc IH Hd]; [apply visit_order_self|].
+  eapply visit_order_closed; eauto.
+Qed.
+
+Lemma in_treach : forall t n, In n (visit_order t) -> TReach t n.
+Proof.
+  induction t as [c0 al ch IH] using ctree_ind'. intros n Hn.
+  apply in_visit_order_node in Hn as [Hn|Hn]; [subst; constructor|].
+  apply in_forest_order in Hn as [k [Hk Hn]]. rewrite Forall_forall in IH.
+  apply Reach_trans with k; [|now apply IH].
+  eapply Reach_step; [constructor|exact Hk].
+Qed.
+
+Lemma NoDup_map_inj {A B} (f : A -> B) : forall l, NoDup (map f l) ->
+    forall x y, In x l -> In y l -> f x = f y -> x = y.
+Proof.
+  induction l as [|z l IH]; intros Hnd x y Hx Hy E; [destruct Hx|].
+  simpl in Hnd. inversion Hnd as [|? ? Hn Hd]; subst.
+  destruct Hx as [Hx|Hx]; destruct Hy as [Hy|Hy]; subst; auto.
+  - exfalso. apply Hn. rewrite E. now apply in_map.
+  - exfalso. apply Hn. rewrite <- E. now apply in_map.
+Qed.
+
+(* distinct class objects: identities (= registration indices) are injective *)
+Lemma tree_id_inj t : NoDup (ids t) ->
+  forall x y, TReach t x -> TReach t y -> t_id x = t_id y -> x = y.
+Proof.
+  intros Hnd x y Hx Hy E. apply (NoDup_map_inj t_id (visit_order t) Hnd); auto using treach_in.
+Qed.
+
+Lemma tree_fuel_ok t a : trun (tree_fuel t) [t] [] None a <> NoFuel.
+Proof.
+  unfold trun, tree_run, tree_fuel.
+  apply run_terminates with (U := visit_order t); [|apply visit_order_self|apply le_n].
+  intros n Hn d Hd. eapply visit_order_closed; eauto.
 Qed.
